@@ -160,11 +160,12 @@ def main(chk):
     quick = chk.tier == 'quick'
     # B3: life-cycle model, every fault position, sequences of runs
     for cfg, what in (('VTLSession_code.cfg', 'shipped protection (from connect on)'), ('VTLSession_req.cfg', 'requirement (everything protected)')):
-        r = tlc.run('VTLSession', cfg, workers=4)
+        r = tlc.run('VTLSession', cfg, workers=4, coverage=True)
         if r.violated:
             chk.violation('model %s %s' % (cfg, r.violated), 'TLC: %s violated in VTLSession under %s' % (r.violated, what), r.output[-3000:])
         else:
             tlc.must(r, cfg)
+            tlc.vacuity(chk, r, 'VTLSession / ' + cfg)
         chk.add('states', r.states)
         chk.add('transitions', r.generated)
     chk.cov['exhaustive'] = True
